@@ -52,7 +52,7 @@ def gen(rng, n):
         elif kind == 'e':
             nodes.append(['f', full, ''])
         elif kind == 'd':
-            nodes += [['d', full, rng.choice([0o755, 0o700, 0o750])], ['f', full + '/in', 'in', 0o640], ['d', full + '/s', 0o711], ['l', full + '/s/l', '../in'],
+            nodes += [['d', full, rng.choice([0o755, 0o700, 0o750, 0o555, 0o500])], ['f', full + '/in', 'in', 0o640], ['d', full + '/s', 0o711], ['l', full + '/s/l', '../in'],
                       ['f', full + '/s/deep', 'deep'], ['l', full + '/dangling', 'no']]
         elif kind == 'lf':
             nodes.append(['l', full, '/canary/file'])
